@@ -108,6 +108,34 @@ func RuleAArrival(c *core.Ctx) {
 			sorted := false
 			w := &core.Walker{P: p, Visit: func(v ssa.Value) bool {
 				var base ssa.Value
+				// the batches come out of a helper of the package that sorts them
+				// (collected.sorted()): every return of it follows a total-order sort call
+				if cl, ok := v.(*ssa.Call); ok {
+					if g := cl.Call.StaticCallee(); g != nil && g.Blocks != nil && core.PkgPathOf(g) == core.PkgPathOf(fn) {
+						var sortCall *ssa.Call
+						core.EachInstr(g, func(s ssa.Instruction) {
+							if sc, ok := s.(*ssa.Call); ok {
+								if cs := sc.Call.StaticCallee(); cs != nil {
+									if _, isSort := sortSpecOf(cs); isSort {
+										sortCall = sc
+									}
+								}
+							}
+						})
+						if sortCall != nil {
+							all := true
+							core.EachInstr(g, func(s ssa.Instruction) {
+								if ret, ok := s.(*ssa.Return); ok && !core.Dominates(sortCall, ret) {
+									all = false
+								}
+							})
+							if all {
+								sorted = true
+								return false
+							}
+						}
+					}
+				}
 				switch x := v.(type) {
 				case *ssa.IndexAddr:
 					base = x.X
